@@ -137,11 +137,15 @@ def ArgD.show : ArgD → String
   | .elem 1 i => "*" ++ toString i
   | .elem _ i => "**" ++ toString i
 
+/-- which registry files a task, as `cancel(id)` classifies it: R(unning), C(ancelled), E(nded), N(ot known) -/
+def regTag : Option Err → String
+  | none => "R" | some .alreadyCancelled => "C" | some .alreadyEnded => "E" | _ => "N"
+
 def Ev.show : Ev → String
   | .started t a => s!"S{t}({a.show})" | .sawCancel t => s!"X{t}" | .returned t => s!"R{t}" | .raised t => s!"E{t}"
-  | .cancelCb t r c e => s!"cc{t}:{r}/{c}/{e}" | .cancelCbDone t => s!"cd{t}"
+  | .cancelCb t r c e k => s!"cc{t}:{r}/{c}/{e}/{regTag k}" | .cancelCbDone t => s!"cd{t}"
   | .cancelCbRaised t => s!"cr{t}" | .cancelCbKilled t => s!"ck{t}"
-  | .endCb t r c e => s!"ec{t}:{r}/{c}/{e}" | .endCbDone t => s!"ed{t}"
+  | .endCb t r c e k => s!"ec{t}:{r}/{c}/{e}/{regTag k}" | .endCbDone t => s!"ed{t}"
   | .endCbRaised t => s!"er{t}" | .endCbKilled t => s!"ek{t}"
   | .pull m k => s!"P{m}:{k}"
   | .hook r => "h[" ++ r.show ++ "]"
